@@ -41,6 +41,8 @@ func main() {
 		os.Exit(cmdFunc(os.Args[2:]))
 	case "list":
 		os.Exit(cmdList(os.Args[2:]))
+	case "bounded":
+		os.Exit(cmdBounded(os.Args[2:]))
 	default:
 		fmt.Fprintln(os.Stderr, "unknown command", os.Args[1])
 		os.Exit(2)
@@ -215,7 +217,7 @@ func cmdFunc(args []string) int {
 			if *verbose || o.Status != "unsat" {
 				fmt.Printf("  %-8s %-7s %5.2fs %s %s\n", o.Status, o.Solver, o.TimeS, o.Name, o.Meta["pos"])
 			}
-			if o.Status != "unsat" && *dump != "" {
+			if (o.Status != "unsat" || os.Getenv("LZ4VERIF_DUMPALL") != "") && *dump != "" {
 				os.MkdirAll(*dump, 0o755)
 				os.WriteFile(filepath.Join(*dump, sanitize(o.Name)+".smt2"), []byte(o.Query(true)), 0o644)
 				os.WriteFile(filepath.Join(*dump, sanitize(o.Name)+".out"), []byte(o.Output), 0o644)
@@ -360,6 +362,7 @@ func cmdCheck(args []string) int {
 	canByProc := map[string][2]int{}
 	var failed []*Obligation
 	knownSeen := []string{}
+	unreached := []string{}
 	for _, o := range all {
 		solverTime += o.TimeS
 		if o.ExpectSat {
@@ -369,6 +372,8 @@ func cmdCheck(args []string) int {
 			if o.Status == "sat" {
 				nCanSat++
 				c[0]++
+			} else {
+				unreached = append(unreached, o.Name+" ("+o.Status+")")
 			}
 			canByProc[o.Proc] = c
 			continue
@@ -481,6 +486,7 @@ func cmdCheck(args []string) int {
 		"samples":                  samples,
 		"undecided":                undecided,
 		"known_findings_seen":      knownSeen,
+		"canaries_not_refuted":     unreached, // returns / back edges / branches no state enters under the contracts: dead code (concurrent branches under num == 1, error paths of calls that cannot fail) -- each one is to be explainable
 		"known_finding_obligations": len(knownSeen),
 		"integer_semantics":        "Go machine integers: exact wrap-around in SMT Int (theory int) or bit-vectors of the Go width (theory bv); never mathematical",
 	}
